@@ -399,9 +399,11 @@ func (b *Broker) RegisterPipeline(def Pipeline, opt ...Option) error {
 		b.releaseNodes(replaced)
 	}
 
-	// Store the pipeline and then update the reference count of the nodes in that pipeline.
+	// Store the pipeline and then update the reference count of the nodes in
+	// that pipeline (a node is referenced once per pipeline, regardless of
+	// how many times the pipeline lists it).
 	g.roots.Store(def.PipelineID, pipelineReg)
-	for _, id := range def.NodeIDs {
+	for id := range root.flatten() {
 		nodeUsage, ok := b.nodes[id]
 		// We can be optimistic about this as we would have already errored above.
 		if ok {
